@@ -244,6 +244,7 @@ func runC11(w *core.WorkerCtx, idx int) *core.CaseResult {
 		// no secret of the scrape job in the file
 		secs := map[string]string{}
 		collectSecrets(reflect.ValueOf(oj.HTTPClientConfig), "", secs, 0)
+		collectSecrets(reflect.ValueOf(oj.ServiceDiscoveryConfigs), "sd", secs, 0) // credentials of the job's discovery clients are job secrets too
 		for p, s := range secs {
 			res.AddStat("job_secrets_scanned", 1)
 			if bytes.Contains(genBytes, []byte(s)) {
